@@ -147,7 +147,7 @@ def build_fn(f, sources, fnmeta):
     src = sources(path, o.get('src'))
     text, s, e = X.extract_fn(src, o['name'], o.get('scope'), int(o['nth']) if 'nth' in o else None)
     stripped = X.strip(text)
-    if o.get('src') == 'expanded':
+    if o.get('src') == 'expanded' or o.get('norm'):
         stripped = X.normalize_expanded(stripped)
     ctx = T.Ctx(o['name'], o.get('xlate', 'verbatim'), o.get('st'), fnmeta['callees'])
     sig, body = T.translate(stripped, ctx, [' '.join(x.strip() for x in c) for c in f.closures])
